@@ -26,6 +26,9 @@ TRUSTED = [
     'difflib.get_close_matches, email.utils.parseaddr, urllib.parse.urlparse, lib.encodings predicates, Language.get_unrepresentable_characters',
     'polib (PO/MO parsing) is upstream of the model: the model input is the catalog as polib delivered it to the check methods',
     'extraction (ExtrOcamlBasic only) + ocaml/driver.ml',
+    'source tie: tools/gen/gen_header_src.py (python ast -> Gallina, fail-closed subset; rules in its docstring) translating gettext.parse_header and '
+    'Checker.check_comments / check_headers / check_mime (without the charset part) / check_project / check_translator into Generated/HeaderSrc.v, and '
+    'Model/HeaderPy.v (the Gallina meaning of the Python operations it emits); C15_source_tie_* prove the translation equal to Model/Header.v',
 ]
 ASSUME = ['the model starts from ctx.file as polib parsed it (entries, flags, initial comments); PO text decoding is C10\'s subject',
           'check_language, check_plurals, check_dates are other properties (C19, C07, C18); their tags are filtered out']
